@@ -264,8 +264,9 @@ class LazyFile(LazyCall):
         self.prefetch = -1
 
     def as_dataset(self, batch=65000):
+        self.batch_size = batch
         if batch in self.cached_batch:
-            return self.cached_batch[batch]
+            return self
 
         def gen():
             for i in data_split(self.x, batch_size=batch):
@@ -278,7 +279,6 @@ class LazyFile(LazyCall):
         ret = tf.data.Dataset.from_generator(
             gen, output_signature=output_signature
         )
-        self.batch_size = batch
         self.cached_batch[batch] = ret
         return self
 
@@ -286,7 +286,14 @@ class LazyFile(LazyCall):
         return LazyFile(x)
 
     def eval(self):
-        return self.x
+        if not self.extra:
+            return self.x
+        ret = dict(self.x)
+        for k, v in self.extra.items():
+            if isinstance(v, LazyCall):
+                v = v.eval()
+            ret[k] = v
+        return ret
 
 
 class EvalLazy:
